@@ -1,2 +1,7 @@
 import WrglModel.Props.C18
-#print axioms Wrgl.C18_placeholder
+#print axioms Wrgl.C18_fact_no_single_read
+#print axioms Wrgl.C18_all_sites_full
+#print axioms Wrgl.C18_readFull_chunk_independent
+#print axioms Wrgl.C18_packfile
+#print axioms Wrgl.C18_packfile_eq_whole_buffer
+#print axioms Wrgl.C18_single_read_witness
